@@ -160,7 +160,7 @@ func nativeReplayBatch(P *Program, files []string, race bool) (map[string]*repla
 	os.WriteFile(ovPath, ob, 0644)
 	listPath := filepath.Join(tmp, "list.txt")
 	os.WriteFile(listPath, []byte(strings.Join(files, "\n")+"\n"), 0644)
-	args := []string{"test", "-tags", "verif", "-vet=off", "-overlay", ovPath, "-run", "^TestVerifReplay$", "-timeout", "120s", "-v"}
+	args := []string{"test", "-tags", "verif", "-vet=off", "-overlay", ovPath, "-run", "^TestVerifReplay$", "-timeout", "75s", "-v"}
 	if race {
 		args = append(args, "-race", "-count=3")
 	} else {
